@@ -213,37 +213,40 @@ def repo_fingerprint():
 # generated (translated / extracted) Coq files and their Tie proofs
 
 def regen_and_tie(prop, binpath, names):
-    """Regenerate Gen_<n>.v for n in names from /repo into work/<prop>/gen and
-    re-check Tie_<n>.v against them.  Returns dict name -> {ok, mode, log}."""
+    """Regenerate Gen_<g>.v from /repo into work/<prop>/gen and re-check Tie_<t>.v against it.
+    A name is "G" (generator G, tie file Tie_G.v) or "G/T" (generator G, tie file Tie_T.v).
+    Returns dict name -> {ok, mode, log}."""
     wd = os.path.join(WORK, prop, "gen")
     shutil.rmtree(wd, ignore_errors=True)
     os.makedirs(wd)
-    rc, out, _ = run_harness(binpath, ["extract", REPO, wd] + list(names))
+    gens = sorted(set(n.split("/")[0] for n in names))
+    rc, out, _ = run_harness(binpath, ["extract", REPO, wd] + gens)
     res = {}
-    for n in names:
-        gen = os.path.join(wd, "Gen_%s.v" % n)
-        committed = os.path.join(COQGEN, "Gen_%s.v" % n)
-        tie = os.path.join(COQGEN, "Tie_%s.v" % n)
+    for name in names:
+        g, t = (name.split("/") + [name])[:2] if "/" in name else (name, name)
+        gen = os.path.join(wd, "Gen_%s.v" % g)
+        committed = os.path.join(COQGEN, "Gen_%s.v" % g)
+        tie = os.path.join(COQGEN, "Tie_%s.v" % t)
         if not os.path.exists(gen):
-            res[n] = dict(ok=False, mode="translator-failed", log=out[-2000:])
+            res[name] = dict(ok=False, mode="translator-failed", log=out[-2000:])
             continue
         same = os.path.exists(committed) and open(gen).read() == open(committed).read()
-        if same and os.path.exists(os.path.join(COQGEN, "Tie_%s.vo" % n)):
-            res[n] = dict(ok=True, mode="identical-to-built", log="")
+        if same and os.path.exists(os.path.join(COQGEN, "Tie_%s.vo" % t)):
+            res[name] = dict(ok=True, mode="identical-to-built", log="")
             continue
         # re-check the tie proof against the freshly generated file
-        td = os.path.join(wd, "tie_" + n)
+        td = os.path.join(wd, "tie_" + t)
         os.makedirs(td, exist_ok=True)
-        shutil.copy(gen, os.path.join(td, "Gen_%s.v" % n))
-        shutil.copy(tie, os.path.join(td, "Tie_%s.v" % n))
+        shutil.copy(gen, os.path.join(td, "Gen_%s.v" % g))
+        shutil.copy(tie, os.path.join(td, "Tie_%s.v" % t))
         ok, lg = True, ""
-        for f in ("Gen_%s.v" % n, "Tie_%s.v" % n):
+        for f in ("Gen_%s.v" % g, "Tie_%s.v" % t):
             rc2, o2, _ = sh(["coqc", "-Q", COQ, "Ucanto", "-Q", td, "UcantoGen", f], cwd=td, timeout=600)
             lg += o2
             if rc2 != 0:
                 ok = False
                 break
-        res[n] = dict(ok=ok, mode="rechecked" if ok else "tie-proof-failed", log=lg[-3000:])
+        res[name] = dict(ok=ok, mode="rechecked" if ok else "tie-proof-failed", log=lg[-3000:])
     return res
 
 
